@@ -403,6 +403,7 @@ PROPS['C19']['contracts'] = PROPS['C19']['contracts'] + CONTAINERS
 PROPS['C04']['contracts'] = PROPS['C04']['contracts'] + [c for c in CONTAINERS if '_cloneComponentValues' in c[1] or '.append' in c[1]]
 PROPS['C12']['contracts'] = PROPS['C12']['contracts'] + [c for c in CONTAINERS if '_cloneComponentValues' in c[1] or 'getComponentByPosition' in c[1]]
 PROPS['C10']['contracts'] = PROPS['C10']['contracts'] + [c for c in CONTAINERS if '.isValue' in c[1]]
+PROPS['C14']['contracts'] = PROPS['C14']['contracts'] + [c for c in CONTAINERS if 'setComponentByPosition[' in c[1] and 'value-object' in c[1]]
 PROPS['C19']['level_text'] += (' SEQUENCE OF / SET OF against an abstract view: the sparse dict is modelled with symbolic integer keys '
                                'and __len__, clear, reset, setComponentByPosition (frame: every other position keeps its member; a '
                                'refused assignment changes nothing), getComponentByPosition (reading an existing member changes '
